@@ -261,6 +261,19 @@ pub(crate) fn dump_rows(ps: &ProcessState) -> String {
     format!("ROWS={} DEPS={}", out.join(";"), deps.join(";"))
 }
 
+pub(crate) fn dump_named_deps(ps: &ProcessState, target: i64) -> String {
+    let mut edges = Vec::new();
+    let mut stmt = ps
+        .db
+        .prepare("select Files.name, Deps.mode from Deps join Files on Files.rowid = Deps.source where Deps.target = ? order by Files.name")
+        .unwrap();
+    let mut rows = stmt.query([target]).unwrap();
+    while let Some(r) = rows.next().unwrap() {
+        edges.push(format!("{}:{}", r.get::<usize, String>(0).unwrap(), r.get::<usize, String>(1).unwrap()));
+    }
+    edges.join(" ")
+}
+
 #[test]
 fn dbstate_batch() {
     use crate::deps::{is_dirty, Dirtiness, DirtyCallbacks};
@@ -291,6 +304,10 @@ fn dbstate_batch() {
                     f.is_source(ptx.state().env()).unwrap(),
                     f.is_target(ptx.state().env()).unwrap()
                 ),
+                "materialise" => {
+                    // leave the project directory in place for a run of the real binaries; the caller removes it
+                    "kept".to_string()
+                }
                 "set_failed" => {
                     let env = ptx.state().env().clone();
                     f.set_failed(&env).unwrap();
@@ -326,5 +343,10 @@ fn dbstate_batch() {
         };
         println!("VERIF-OUT {} VERDICT={} {}", i, verdict, dump_rows(&w.ps));
         std::env::set_current_dir(&home).unwrap();
+        if op == "materialise" {
+            let ReplayWorld { ps, dir } = w;
+            drop(ps);
+            println!("VERIF-OUT {} DIR={}", i, dir.into_path().display());
+        }
     }
 }
